@@ -21,6 +21,13 @@
 (*                              effect is an internal step (Lin) somewhere *)
 (*                              between the two, TLC searches for a        *)
 (*                              linearization against the plain map        *)
+(*   run    {a, r, n, same}     n calls in a row on one key: n times the   *)
+(*                              same get / exist, or n sets of n different *)
+(*                              values of which a is the LAST (the earlier *)
+(*                              ones are overwritten: applying a once is   *)
+(*                              applying the run); r is the first reply,   *)
+(*                              same says that all n replies were equal    *)
+(*   idxrun {a, r, n, same, inmut}  the same for a routing question        *)
 (*   panic / stuck / crash      a constructor panicked, a call never       *)
 (*                              returned, the process died inside neptune: *)
 (*                              no action explains them (CASE OTHER)       *)
@@ -55,6 +62,20 @@ TCall(e) ==
   /\ e.r.v = Reply(e.a).v
   /\ UNCHANGED pend
 
+(* long runs of one idempotent call, run-length encoded *)
+TRun(e) ==
+  /\ Quiet
+  /\ e.a.op \in {"set", "get", "exist"} /\ e.n >= 1 /\ e.same = TRUE
+  /\ MapStep(e.a)
+  /\ e.r.ok = Reply(e.a).ok
+  /\ e.r.v = Reply(e.a).v
+  /\ UNCHANGED pend
+
+TIdxRun(e) ==
+  /\ e.n >= 1 /\ e.same = TRUE /\ e.inmut = TRUE
+  /\ RouteStep(e.a, e.r)
+  /\ UNCHANGED pend
+
 TInv(e) ==
   /\ pend[e.t] = Idle
   /\ pend' = [pend EXCEPT ![e.t] = [st |-> "called", a |-> e.a]]
@@ -72,6 +93,8 @@ Consume ==
        CASE e.ev = "reset" -> TReset(e)
          [] e.ev = "idx"   -> TIdx(e)
          [] e.ev = "call"  -> TCall(e)
+         [] e.ev = "run"    -> TRun(e)
+         [] e.ev = "idxrun" -> TIdxRun(e)
          [] e.ev = "inv"   -> TInv(e)
          [] e.ev = "res"   -> TRes(e)
          [] OTHER -> FALSE
